@@ -7,7 +7,39 @@ COMMON_TRUSTED = [
     'no Axiom/Parameter/Admitted in the development; Print Assumptions output per property file is appended below',
 ]
 
+CRDT_COQ = ['Crdt/Model.v', 'Crdt/Sweep.v', 'Crdt/Order.v', 'Crdt/Conv.v', 'Crdt/Exact.v', 'Corr/CorrCRDT.v']
+CRDT_TRUSTED = ['block ids are assigned by the harness; the hash function (cid) is not modelled, content addressing is checked on the implementation by recomputing SHA-256',
+                'hand-written operational model of merge walk / ProcessBlock / updateHeads (Crdt/Model.v), tied by the per-step correspondence (row, heads, merge result after every step)',
+                'field-level head sets, encrypted deltas, lens migrations and collection-level (branchable) blocks are not in the model; branchable histories are checked by the implementation oracle only']
+
 PROPS = {
+    'C01': {
+        'level': 'proof',
+        'coq': CRDT_COQ + ['Props/C01.v'],
+        'props_files': ['Props/C01.v'],
+        'engines': [{'name': 'crdt', 'kinds': ['divergence', 'merge-failed', 'float-counter-order', 'query-error', 'harness-.*']}],
+        'corr_relation': 'CorrCRDT.check_case (operational replica model = real nodes, step by step)',
+        'trusted': CRDT_TRUSTED,
+        'assumptions': ['no-merge-failure clause: the model has no failing branch; it is established by the correspondence (every delivery on the real nodes must succeed) and the direct oracle'],
+    },
+    'C02': {
+        'level': 'proof',
+        'coq': CRDT_COQ + ['Props/C02.v'],
+        'props_files': ['Props/C02.v'],
+        'engines': [{'name': 'crdt', 'kinds': ['counter-sum', 'float-counter-sum', 'register-.*', 'delete-status', 'doc-presence', 'query-error', 'harness-.*']}],
+        'corr_relation': 'CorrCRDT.check_case (operational replica model = real nodes, step by step)',
+        'trusted': CRDT_TRUSTED,
+        'assumptions': ['P-counter rejection of negative increments happens at write time and is not modelled'],
+    },
+    'C04': {
+        'level': 'proof',
+        'coq': CRDT_COQ + ['Props/C04.v'],
+        'props_files': ['Props/C04.v'],
+        'engines': [{'name': 'crdt', 'kinds': ['dag-.*', 'event-count', 'query-error', 'harness-.*']}],
+        'corr_relation': 'CorrCRDT.check_case (predicted head set and local-write parents/height = observed)',
+        'trusted': CRDT_TRUSTED,
+        'assumptions': ['hash / height / closure of every block and genesis determinism are evaluated on the implementation (SHA-256 recomputed by the harness), not proved'],
+    },
     'C17': {
         'level': 'proof',
         'coq': ['Props/C17.v', 'Corr/CorrC17.v'],
